@@ -4,7 +4,7 @@
 cd /verif
 par=${1:-4}
 out=seeded/RESULTS.txt
-declare -A extra=( [C06b]="C05" [C08b]="C17" [C07a]="C05" [C04a]="C14" [C17c]="C09" )
+declare -A extra=( [C06e]="C19" [C07e]="C05" [C08f]="C15" [C18e]="C15" [C06b]="C05" [C08b]="C17" [C07a]="C05" [C04a]="C14" [C17c]="C09" )
 jobs=/tmp/seed_regress_jobs.txt; : > $jobs
 for d in seeded/*/; do
   k=$(basename $d); [ -f $d/meta.json ] || continue
